@@ -16,6 +16,7 @@ import (
 	"time"
 
 	"github.com/sourcenetwork/defradb/client"
+	"github.com/sourcenetwork/defradb/internal/connor"
 	"github.com/sourcenetwork/defradb/internal/keys"
 )
 
@@ -208,9 +209,6 @@ func (m *indexInArrayMatcher) Match(value client.NormalValue) (bool, error) {
 
 // checks if the index value satisfies the LIKE condition
 type indexLikeMatcher struct {
-	hasPrefix         bool
-	hasSuffix         bool
-	startAndEnd       []string
 	isLike            bool
 	isCaseInsensitive bool
 	value             string
@@ -220,24 +218,10 @@ func newLikeIndexCmp(filterValue string, isLike bool, isCaseInsensitive bool) (*
 	matcher := &indexLikeMatcher{
 		isLike:            isLike,
 		isCaseInsensitive: isCaseInsensitive,
-	}
-	if len(filterValue) >= 2 {
-		if filterValue[0] == '%' {
-			matcher.hasPrefix = true
-			filterValue = strings.TrimPrefix(filterValue, "%")
-		}
-		if filterValue[len(filterValue)-1] == '%' {
-			matcher.hasSuffix = true
-			filterValue = strings.TrimSuffix(filterValue, "%")
-		}
-		if !matcher.hasPrefix && !matcher.hasSuffix {
-			matcher.startAndEnd = strings.Split(filterValue, "%")
-		}
+		value:             filterValue,
 	}
 	if isCaseInsensitive {
 		matcher.value = strings.ToLower(filterValue)
-	} else {
-		matcher.value = filterValue
 	}
 
 	return matcher, nil
@@ -269,20 +253,8 @@ func (m *indexLikeMatcher) Match(val client.NormalValue) (bool, error) {
 }
 
 func (m *indexLikeMatcher) doesMatch(currentVal string) bool {
-	switch {
-	case m.hasPrefix && m.hasSuffix:
-		return strings.Contains(currentVal, m.value)
-	case m.hasPrefix:
-		return strings.HasSuffix(currentVal, m.value)
-	case m.hasSuffix:
-		return strings.HasPrefix(currentVal, m.value)
-	// there might be 2 ends only for LIKE with 1 % in the middle "ab%cd"
-	case len(m.startAndEnd) == 2:
-		return strings.HasPrefix(currentVal, m.startAndEnd[0]) &&
-			strings.HasSuffix(currentVal, m.startAndEnd[1])
-	default:
-		return m.value == currentVal
-	}
+	// the same pattern semantics as on the scan path
+	return connor.MatchLikePattern(m.value, currentVal)
 }
 
 type anyMatcher struct{}
